@@ -47,7 +47,7 @@ def worker(job):
         args.command = 'callAltTranslation'
         args.selenocysteine_termination, args.w2f_reassignment = flags
         from moPepGen.cli.call_alt_translation import call_alt_translation
-        canon = pipe.canonical_pool(case, **kw)
+        canon = pipe.model_canonical_pool(case, **kw)
         desc = {'seed': seed, 'kw': kw, 'selenocysteine_termination': flags[0], 'w2f': flags[1]}
         out['desc'] = desc
         try:
